@@ -1,6 +1,7 @@
 package main
 
 import (
+	"go/token"
 	"fmt"
 	"go/types"
 	"sort"
@@ -21,6 +22,7 @@ func init() {
 		Rules: map[string]string{
 			"R1": "for each field with a write outside the allocating function: the intersection over all its accesses (anywhere in the library, constructor excluded) of the must-lockset is non-empty, with write mode at writes",
 			"R2": "fields without such writes are init-only (reported as OK with the count of reads)",
+			"R4": "no append whose first operand is a slice loaded from a field of a shared object (election, handler, monitor, adapter) unless that operand was re-sliced with a capacity limit (s[:n:n]) first: append writes into the shared backing array when it has spare capacity, from whichever goroutine gets there",
 			"R3": "if the intersection is empty although every access holds some mutex, the field is guarded by different mutexes in different places",
 		},
 	})
@@ -247,6 +249,7 @@ func checkC20(c *Ctx) {
 	if nFields < 15 {
 		c.undecided("R1", "instance-floor", nil, "only %d plain fields of shared objects found; more than 20 on the reference tree", nFields)
 	}
+	sharedSliceAppendRule(c, "R4")
 }
 
 func derivesFromAlloc(v ssa.Value) bool {
@@ -288,4 +291,62 @@ func (m *Model) onceGuarded(as []fieldAccess) bool {
 		}
 	}
 	return true
+}
+
+
+// sharedSliceAppendRule (C20-R4): the field-level lockset discipline does not see the elements of
+// a slice. A slice kept in a shared object and read without a lock is fine as long as nobody writes
+// its backing array - and append does, silently, whenever the slice has spare capacity.
+func sharedSliceAppendRule(c *Ctx, rule string) {
+	m := c.M
+	n := 0
+	var fromSharedField func(v ssa.Value, depth int) (string, bool)
+	fromSharedField = func(v ssa.Value, depth int) (string, bool) {
+		if depth > 6 || v == nil {
+			return "", false
+		}
+		switch x := m.traceValue(v).(type) {
+		case *ssa.UnOp:
+			if x.Op == token.MUL {
+				a := m.Sym.Of(x.X)
+				if a.Op == "addr" && !strings.HasPrefix(a.Name, "local:") && strings.Contains(a.Name, ".") {
+					return a.Name, true
+				}
+			}
+		case *ssa.Slice:
+			if x.Max != nil {
+				return "", false // capacity limited: append copies
+			}
+			return fromSharedField(x.X, depth+1)
+		case *ssa.Phi:
+			for _, e := range x.Edges {
+				if f, ok := fromSharedField(e, depth+1); ok {
+					return f, true
+				}
+			}
+		case *ssa.ChangeType:
+			return fromSharedField(x.X, depth+1)
+		}
+		return "", false
+	}
+	for _, f := range m.Funcs {
+		if m.isCtorCode(f) {
+			continue
+		}
+		eachInstr(f, func(in ssa.Instruction) {
+			call, ok := in.(*ssa.Call)
+			if !ok {
+				return
+			}
+			b, isB := call.Call.Value.(*ssa.Builtin)
+			if !isB || b.Name() != "append" || len(call.Call.Args) == 0 {
+				return
+			}
+			n++
+			if fld, shared := fromSharedField(call.Call.Args[0], 0); shared {
+				c.viol(rule, fmt.Sprintf("append to the shared slice %s in %s", fld, shortFn(f)), call, "the first operand of append is the slice stored in %s, read without limiting its capacity: when the slice has spare capacity append writes into the backing array that every other reader of the field shares (two goroutines logging at once overwrite each other's element; the race detector reports a write/write)", fld)
+			}
+		})
+	}
+	c.ok(rule, "no append to a slice held in a shared object", nil, "%d append calls examined outside the constructor", n)
 }
